@@ -217,3 +217,13 @@ Definition first_voucher (c : chan) : voucher :=
   match c_vouchers c with [] => no_voucher | v :: _ => v end.
 Definition last_voucher (c : chan) : voucher := last (c_vouchers c) no_voucher.
 Definition last_result (c : chan) : voucher := last (c_results c) no_voucher.
+
+(* channels.CreateNew: the record a new channel starts with *)
+Definition create_new (self tid basecid selector : N) (v : voucher) (initiator sender receiver : N) : chan :=
+  {| c_self := self; c_tid := tid; c_init := initiator;
+     c_resp := (if N.eqb sender initiator then receiver else sender);
+     c_basecid := basecid; c_selector := selector; c_sender := sender; c_recipient := receiver;
+     c_totalsize := 0; c_status := Requested; c_queued := 0; c_sent := 0; c_received := 0;
+     c_msg := EmptyString; c_vouchers := [v]; c_results := [];
+     c_rblocks := 0; c_qblocks := 0; c_sblocks := 0; c_limit := 0;
+     c_reqfin := false; c_rpaused := false; c_ipaused := false; c_stages := Some [] |}.
